@@ -690,9 +690,24 @@ pub fn check_c17(input: &str, stats: &mut Stats, rng: &mut Rng, exhaustive_budge
                 break;
             }
         }
-        (rec.events, err, calls, max_docs_per_call)
+        // one more call after the stream has ended delivers nothing
+        let mut extra = 0usize;
+        if err.is_none() && rec.events.last().map(|e| &e.0) == Some(&SEv::StreamEnd) {
+            let mut rec2 = Recorder { events: vec![], cap: 64 };
+            let _ = p.load(&mut rec2, false);
+            extra = rec2.events.len();
+        }
+        (rec.events, err, calls, max_docs_per_call, extra)
     });
-    if let Ok((evs, err, calls, max_docs_per_call)) = single {
+    if let Ok((evs, err, calls, max_docs_per_call, extra)) = single {
+        if extra > 0 {
+            viol(
+                stats,
+                "C17/after-stream-end/load-multi-false-delivers-more".into(),
+                format!("after the load(multi=false) calls had delivered StreamEnd, one more call delivered {extra} event(s)"),
+                case_json(input, vec![]),
+            );
+        }
         if max_docs_per_call > 1 {
             viol(
                 stats,
@@ -743,7 +758,10 @@ pub fn check_c17(input: &str, stats: &mut Stats, rng: &mut Rng, exhaustive_budge
     // event must be the first one load() delivers and nothing may be lost or repeated. load() can
     // only take over at a document boundary: after StreamStart or after a DocumentEnd.
     if plain.error.is_none() && !plain.capped {
-        let boundaries: Vec<usize> = plain.events.iter().enumerate().filter(|(_, e)| matches!(e.0, SEv::StreamStart | SEv::DocEnd)).map(|(i, _)| i + 1).collect();
+        let mut boundaries: Vec<usize> = plain.events.iter().enumerate().filter(|(_, e)| matches!(e.0, SEv::StreamStart | SEv::DocEnd)).map(|(i, _)| i + 1).collect();
+        // before anything was pulled (a peek then sees StreamStart), and after everything was pulled
+        boundaries.push(0);
+        boundaries.push(plain.events.len());
         if !boundaries.is_empty() {
             let k = boundaries[rng.below(boundaries.len())];
             let do_peek = rng.chance(2, 3);
@@ -762,10 +780,38 @@ pub fn check_c17(input: &str, stats: &mut Stats, rng: &mut Rng, exhaustive_budge
                 let mut rec = Recorder { events: vec![], cap: safety_cap(input) };
                 let res = p.load(&mut rec, true);
                 got.extend(rec.events);
-                Some((got, res.err().map(|e| serr(&e))))
+                // the stream has ended, whichever interface delivered StreamEnd: nothing follows
+                let mut after: Vec<String> = vec![];
+                if res.is_ok() {
+                    if let Some(x) = p.peek() {
+                        after.push(format!("peek() returned {:?}", x.map(|e| sev(&e.0)).map_err(|e| serr(&e).display)));
+                    }
+                    if let Some(x) = p.next_event() {
+                        after.push(format!("next() returned {:?}", x.map(|e| sev(&e.0)).map_err(|e| serr(&e).display)));
+                    }
+                    let mut rec2 = Recorder { events: vec![], cap: 64 };
+                    let res2 = p.load(&mut rec2, true);
+                    if res2.is_err() || !rec2.events.is_empty() {
+                        after.push(format!("another load() delivered {:?} / {:?}", rec2.events.iter().map(|e| e.0.clone()).collect::<Vec<_>>(), res2.err().map(|e| serr(&e).display)));
+                    }
+                    let mut rec3 = Recorder { events: vec![], cap: 64 };
+                    let res3 = p.load(&mut rec3, false);
+                    if res3.is_err() || !rec3.events.is_empty() {
+                        after.push(format!("another load(multi=false) delivered {:?} / {:?}", rec3.events.iter().map(|e| e.0.clone()).collect::<Vec<_>>(), res3.err().map(|e| serr(&e).display)));
+                    }
+                }
+                Some((got, res.err().map(|e| serr(&e)), after))
             });
-            if let Ok(Some((got, err))) = r {
+            if let Ok(Some((got, err, after))) = r {
                 stats.cnt("next_then_load_histories", 1);
+                if !after.is_empty() {
+                    viol(
+                        stats,
+                        "C17/after-stream-end/something-follows".into(),
+                        format!("{k} next() calls{} followed by load() delivered the whole stream; afterwards: {}", if do_peek { ", a peek()," } else { "" }, after.join("; ")),
+                        J::obj(vec![("input", J::s(input)), ("nexts", J::Int(k as i64)), ("peek", J::Bool(do_peek))]),
+                    );
+                }
                 let strip = |v: &[(SEv, SSpan)]| -> Vec<(SEv, Option<SSpan>)> { v.iter().map(|(e, s)| (e.clone(), if *e == SEv::StreamEnd { None } else { Some(*s) })).collect() };
                 if err.is_some() || strip(&got) != strip(&plain.events) {
                     viol(
